@@ -2,7 +2,10 @@ use std::cell::Cell;
 #[cfg(feature = "work_steal")]
 use std::cell::UnsafeCell;
 use std::io;
+#[cfg(not(may_verif))]
 use std::sync::atomic::{AtomicUsize, Ordering};
+#[cfg(may_verif)]
+use crate::verif::atomic::{AtomicUsize, Ordering};
 use std::sync::{Arc, Once};
 use std::thread;
 use std::time::Duration;
@@ -44,7 +47,11 @@ fn init_scheduler() {
     unsafe { SCHED = Box::into_raw(b) };
 
     // timer thread
+    #[cfg(may_verif)]
+    let token = crate::verif::spawn_token("timer");
     thread::spawn(move || {
+        #[cfg(may_verif)]
+        let _vg = crate::verif::thread_begin(token);
         // timer function
         let timer_event_handler = |c: Arc<AtomicOption<CoroutineImpl>>| {
             // just re-push the co to the visit list
@@ -64,7 +71,11 @@ fn init_scheduler() {
     let pin_cores = config().get_worker_pin();
     // io event loop thread
     for (id, core) in (0..workers).zip(core_ids.into_iter().cycle()) {
+        #[cfg(may_verif)]
+        let token = crate::verif::spawn_token("worker");
         thread::spawn(move || {
+            #[cfg(may_verif)]
+            let _vg = crate::verif::thread_begin(token);
             if pin_cores {
                 core_affinity::set_for_current(core);
             }
